@@ -18,6 +18,7 @@ import (
 	"google.golang.org/protobuf/encoding/protojson"
 	"google.golang.org/protobuf/proto"
 	"google.golang.org/protobuf/reflect/protoreflect"
+	"google.golang.org/protobuf/types/dynamicpb"
 
 	"larking.io/larking"
 
@@ -524,7 +525,7 @@ func c09Cases(ts *tSchema, thorough bool) []c09Case {
 
 func runC09(c *Ctx) {
 	r := c.Run
-	r.Rule("entry path{transcoding, gRPC, gRPC-web(-text), WebSocket upgrade} × mux options{plain, interceptors, stats handler, both} × (all paths of length <= 6 (thorough 7) over {/ : a * . { space é 0x80} incl. behind '/a', '/a/a…:a'; token-limit paths; every query key of depth <= 3 through scalar/message/repeated/map/oneof/wrapper/unknown fields × 7 values; header alphabets for Content-Type × Accept, Accept-Encoding × Content-Encoding × gzip junk, Grpc-Encoding × grpc-timeout, Upgrade variants; bodies: every frame header flag{0,1,2,0x80,0xff} × length{0,1,3,5,L,L+1,2^32-1} × payload{valid,truncated,junk,empty,gzip,cut gzip}, all 1..10-byte varint prefixes, JSON brace streams and deep nesting, WebSocket protocol violations; handler codes incl. out of range); distinct = (entry, mux, outcome class, input family)")
+	r.Rule("entry path{transcoding, gRPC, gRPC-web(-text), WebSocket upgrade} × mux options{plain, interceptors, stats handler, both} × (all paths of length <= 6 (thorough 7) over {/ : a * . { space é 0x80} incl. behind '/a', '/a/a…:a'; token-limit paths; every query key of depth <= 3 through scalar/message/repeated/map/oneof/wrapper/unknown fields × 7 values; header alphabets for Content-Type × Accept, Accept-Encoding × Content-Encoding × gzip junk, Grpc-Encoding × grpc-timeout, Upgrade variants; bodies: every frame header flag{0,1,2,0x80,0xff} × length{0,1,3,5,L,L+1,2^32-1} × payload{valid,truncated,junk,empty,gzip,cut gzip}, all 1..10-byte varint prefixes, JSON brace streams and deep nesting, WebSocket protocol violations; handler codes incl. out of range); reply path: gzip-negotiated gRPC / gRPC-web calls (unary, server-streaming) whose incompressible reply takes every size 0..1200 (thorough 9000), ascending then descending on one mux; distinct = (entry, mux, outcome class, input family)")
 	r.Assume("small-scope hypothesis: 'for all byte strings' is covered up to the stated lengths and alphabets", "a case that does not return within 120 s is reported as a hang (the normal cost of a case is microseconds)")
 	ts, err := newTSchema()
 	if err != nil {
@@ -595,6 +596,87 @@ func runC09(c *Ctx) {
 	})
 	c09PathSweep(c, envs, cur, started)
 	close(stop)
+	c09ReplySweep(c)
+}
+
+// c09ReplySweep: the reply path. Requests that negotiate gzip message compression, against a
+// handler whose reply is incompressible and of every size 0..N: the compressed reply takes
+// every length relative to the capacity of whatever pooled send buffer is in use (grow /
+// re-slice arithmetic). Sequential on one mux (ascending, then descending sizes), gRPC and
+// gRPC-web, unary and server-streaming. No panic; the reply decodes to what the handler sent.
+func c09ReplySweep(c *Ctx) {
+	r := c.Run
+	maxSize := 1200
+	if c.Thorough() {
+		maxSize = 9000
+	}
+	r.Set("reply_sweep_max_size", maxSize)
+	ts, err := newTSchema()
+	if err != nil {
+		panic(err)
+	}
+	m, impl, err := ts.newMux()
+	if err != nil {
+		panic(err)
+	}
+	noise := func(n int) []byte { // deterministic, incompressible
+		b := make([]byte, n)
+		x := uint32(2463534242)
+		for i := range b {
+			x ^= x << 13
+			x ^= x >> 17
+			x ^= x << 5
+			b[i] = byte(x >> 11)
+		}
+		return b
+	}
+	reqPB, _ := proto.Marshal(ts.newReq("q", nil, 0))
+	reqFrame := wire.GRPCFrame(1, gzipBytes(reqPB))
+	one := func(entry, shape string, size int) {
+		want := ts.newRsp("", noise(size), 0)
+		replies := []proto.Message{want}
+		if shape == "SS" {
+			replies = append(replies, ts.newRsp("", noise(size/2), 0))
+		}
+		impl.reset(hScript{RecvN: -1, Replies: replies})
+		hdr := http.Header{"Grpc-Encoding": {"gzip"}, "Grpc-Accept-Encoding": {"gzip"}}
+		var res *callResult
+		if entry == "grpc" {
+			res = doGRPC(m, "/vs.T/"+shape, "application/grpc", hdr, reqBody{Data: reqFrame})
+		} else {
+			res = doWeb(m, "/vs.T/"+shape, "application/grpc-web+proto", hdr, reqBody{Data: reqFrame})
+		}
+		r.Eval(1)
+		tc := c09Case{Entry: "reply-sweep", Mux: "t", Verb: entry, Path: "/vs.T/" + shape, CL: int64(size)}
+		key := fmt.Sprintf("entry=reply-sweep/%s %s reply-size=%d", entry, shape, size)
+		switch {
+		case res.Panicked:
+			r.Outcome("FAIL:panic")
+			r.Violation(report.Violation{Oracle: "panic", Key: "panic " + key, Case: tc, Note: res.Panic})
+		case res.ParseErr != "" || res.Status == nil || res.Status.Code != 0 || len(res.Msgs) != len(replies):
+			r.Outcome("FAIL:malformed-response")
+			r.Violation(report.Violation{Oracle: "malformed-response", Key: "malformed-response " + key, Case: tc, Note: fmt.Sprintf("parse=%q status=%+v replies=%d want %d", res.ParseErr, res.Status, len(res.Msgs), len(replies))})
+		default:
+			got := dynamicpb.NewMessage(ts.rsp)
+			if err := proto.Unmarshal(res.Msgs[0], got); err != nil || !proto.Equal(got, want) {
+				r.Outcome("FAIL:malformed-response")
+				r.Violation(report.Violation{Oracle: "malformed-response", Key: "malformed-response " + key, Case: tc, Note: fmt.Sprintf("the compressed reply does not decode to what the handler sent (err=%v)", err)})
+				return
+			}
+			r.Outcome(entry + ":reply-sweep-ok")
+		}
+	}
+	for _, entry := range []string{"grpc", "web"} {
+		for _, shape := range []string{"Unary", "SS"} {
+			for size := 0; size <= maxSize; size++ {
+				one(entry, shape, size)
+			}
+			for size := maxSize; size >= 0; size -= 3 {
+				one(entry, shape, size)
+			}
+			r.Distinct("reply-sweep|" + entry + "|" + shape)
+		}
+	}
 }
 
 // c09PathSweep enumerates every path up to the tier's length bound without materialising the
@@ -664,6 +746,17 @@ func replayC09(c *Ctx, v report.Violation) {
 	var tc c09Case
 	if !remarshal(v.Case, &tc) {
 		fmt.Println("replay: cannot decode case")
+		return
+	}
+	if tc.Entry == "reply-sweep" {
+		// the outcome depends on the pooled buffers the earlier replies left behind: re-run the sweep
+		sub := *c
+		sub.Run = report.NewRun("C09", "quick", 0, "exploration")
+		c09ReplySweep(&sub)
+		fmt.Printf("replay: reply sweep re-run -> %d violations\n", sub.Run.NumViolations())
+		if sub.Run.NumViolations() > 0 {
+			c.Run.Violation(report.Violation{Oracle: v.Oracle, Key: v.Key, Case: tc, Note: "the reply sweep still fails"})
+		}
 		return
 	}
 	oracle, note := newC09Env().exec(&tc)
